@@ -66,6 +66,14 @@ def one(sid, tier, seeds, suite, also):
                            cwd=scratch, env=dict(env, PYTHONPATH=""))
             failed = {l.split()[1] for l in outs.splitlines() if l.startswith(("FAILED", "ERROR")) and len(l.split()) > 1}
             extra = sorted(failed - BASE_FAIL)
+            # wall-clock tests (test_ivp_speed) fail under machine load: a failure only counts if it repeats alone
+            still = []
+            for t in extra:
+                rc1, _ = sh("/venv/bin/python -m pytest -q -p no:cacheprovider --timeout=900 '%s'" % t,
+                            cwd=scratch, env=dict(env, PYTHONPATH=""))
+                if rc1 != 0:
+                    still.append(t)
+            extra = still
             row["suite"] = "passes" if not extra else "SUITE-CATCHES-IT: " + ", ".join(extra)[:300]
         verdicts = {}
         first = ""
